@@ -243,6 +243,10 @@ def load_pyx(rel, names, ns=None, transform=None, float_mode=False):
         if transform:
             node = transform(node)
         node = _Rewrite(code).visit(node)
+        # every `while` loop of the source gets an iteration budget (a loop whose concrete counter never advances must end the run, as a fault of the source, instead of hanging the check)
+        for w_ in [n_ for n_ in ast.walk(node) if isinstance(n_, ast.While)]:
+            site_ = '%s:%s line %d' % (os.path.relpath(path, REPO), qual, span[0] + getattr(w_, 'lineno', 1) - 1)
+            w_.body.insert(0, ast.Expr(value=ast.Call(func=ast.Name(id='_loop_tick', ctx=ast.Load()), args=[ast.Constant(value=site_)], keywords=[])))
         mod = ast.Module(body=[node], type_ignores=[])
         ast.fix_missing_locations(mod)
         exec(compile(mod, '%s:%s' % (os.path.relpath(path, REPO), qual), 'exec'), full)
